@@ -10,7 +10,13 @@ func FixedEnv() *Env {
 	ek := &Decl{Name: "Key", Pkg: x, IsStruct: true, Fields: []Field{{Name: "K0", Type: B("int")}, {Name: "k1", Type: B("string")}}}
 	e.ExtKeys = []*Decl{ek}
 	e0 := &Decl{Name: "E0", Pkg: x, IsStruct: true, Fields: []Field{{Name: "F0", Type: B("int")}, {Name: "f1", Type: SliceOf(B("string"))}, {Name: "f2", Type: PtrTo(B("float64"))}}}
-	e.ExtStructs = []*Decl{e0}
+	// a flat struct and a second imported package whose struct only uses ext1's types in positions where
+	// generated code need not spell them (so derived.gen.go must not import ext1 on their account)
+	pt := &Decl{Name: "Pt", Pkg: x, IsStruct: true, Fields: []Field{{Name: "X", Type: B("int")}, {Name: "Y", Type: B("int")}}}
+	y := &ExtPkg{Dir: "x/other", Name: "other"}
+	e.Ext = append(e.Ext, y)
+	o0 := &Decl{Name: "O0", Pkg: y, IsStruct: true, Fields: []Field{{Name: "A", Type: B("int")}, {Name: "N", Type: NamedT(num)}, {Name: "P", Type: NamedT(pt)}, {Name: "S", Type: SliceOf(B("string"))}}}
+	e.ExtStructs = []*Decl{e0, pt, o0}
 	myInt := &Decl{Name: "MyInt", Under: B("int")}
 	myStr := &Decl{Name: "MyStr", Under: B("string")}
 	e.NamedBasic = []*Decl{myInt, myStr}
@@ -24,11 +30,11 @@ func FixedEnv() *Env {
 }
 
 // Enumerate lists every type expression up to the given constructor depth over the fixed
-// environment: leaves {int, string, float64, bool, byte, MyInt, S0, ext.E0, R} and constructors
+// environment: leaves {int, string, float64, bool, byte, MyInt, S0, ext.E0, R, other.O0} and constructors
 // {*T, []T, [2]T, map[string]T, map[K0]T}.
 func Enumerate(e *Env, depth int) []*Type {
 	leaves := []*Type{B("int"), B("string"), B("float64"), B("bool"), B("byte"), NamedT(e.NamedBasic[0]),
-		NamedT(e.Structs[1]), NamedT(e.ExtStructs[0]), NamedT(e.Structs[2])}
+		NamedT(e.Structs[1]), NamedT(e.ExtStructs[0]), NamedT(e.Structs[2]), NamedT(e.ExtStructs[2])}
 	k0 := NamedT(e.KeyStructs[0])
 	level := leaves
 	all := append([]*Type{}, leaves...)
